@@ -105,6 +105,7 @@ func propC12(c *Ctx) {
 	c.ruleNextDirectiveRecognised("C12-NEXT-DIRECTIVE")
 	c.ruleFirstByteTables("C12-KEYWORD-PREFILTER") // a Description's Text lexeme must end where the next directive starts
 	c.ruleParamsPositionFree("C12-PARAMS-POSITION-FREE")
+	c.ruleNextDrains("C12-NEXT-DRAINS")
 	c.ruleOpenTransparent(m, "C12-OPEN-TRANSPARENT")
 	if c.R.Tier == "thorough" {
 		c.thoroughScanner(m, "C12")
